@@ -49,6 +49,7 @@ TLen(t) == CASE t.op = "bytes" -> Len(t.v)
              [] t.op = "setbyte" -> TLen(t.of)
              [] t.op = "addbyte" -> TLen(t.of)
              [] t.op = "cksum" -> 1
+             [] t.op = "lookup" -> TLen(t.default)
              [] t.op = "ref" -> 0
 Len16(t) == B(LE16(TLen(t)))
 =============================================================================
